@@ -295,7 +295,7 @@ func randSubset(r *vh.Rng, vs []uint16) []uint16 {
 }
 
 func run(c *vh.Ctx) error {
-	c.Res.Rule = "pairs (responder table, initiator table) of sub-tables of the NtN / NtC / DMQ-NtC / DMQ-NtN tables: all singletons x singletons, subsets of size <= 2 on both sides (exhaustive in thorough, sampled in quick), random larger subsets incl. empty and full; x magic equal / different, diffusion and peer-sharing flags random, query flag on the initiator; initiator entries of the wrong Go type (decode-error path); cross-table pairs; whole-Connection pairs with the generated full tables. Distinct by both parameter records; non-trivial = both tables non-empty"
+	c.Res.Rule = "pairs (responder table, initiator table) of sub-tables of the NtN / NtC / DMQ-NtC / DMQ-NtN tables: all singletons x singletons, subsets of size <= 2 on both sides (exhaustive for NtN/DMQ and 2500 sampled for NtC in thorough, ~160 sampled per table in quick), random larger subsets incl. empty and full; x magic equal / different, diffusion and peer-sharing flags random, query flag on the initiator; initiator entries of the wrong Go type (decode-error path); cross-table pairs; whole-Connection pairs with the generated full tables. Distinct by both parameter records; non-trivial = both tables non-empty"
 	c.Res.Modelled = []string{"mux framing, message CBOR framing and the protocol state machine are exercised for real but not modelled (C09-C12); the model starts at the decoded ProposeVersions map", "nil entries in a configured version table are not modelled (no generator produces them)", "the text of DecodeError / Refused refusals is not compared"}
 	cf := c.NewCaseFile("c18", header)
 	cf.SetShardSize(150)
@@ -365,7 +365,7 @@ func run(c *vh.Ctx) error {
 		n := 0
 		for _, a := range subs {
 			for _, b := range subs {
-				if !c.Thorough() && len(subs) > 3 && r.Intn(len(subs)*len(subs)) >= c.Pick(160, 0) {
+				if len(subs) > 3 && len(subs)*len(subs) > c.Pick(160, 2500) && r.Intn(len(subs)*len(subs)) >= c.Pick(160, 2500) {
 					continue
 				}
 				n++
